@@ -251,6 +251,15 @@ def compose(b, mat):
                 if (SIGN_TAG in t['tags']) != (t['amount'] < 0):
                     row_mismatch = {'source': src['name'], 'in_file': fact(t), 'alone': f'the rule "amount < 0" (tag {SIGN_TAG}) must apply exactly when the reported amount is negative'}
                     break
+        if row_mismatch is None:
+            # by construction: the source contributes exactly its well-formed rows, each with the amount its cell denotes under the source's own settings
+            fx = lambda d: (d['raw_description'], round(float(d['amount']), 6), str(d['date'])[:10])
+            exp_rows, got_rows = [fx(e) for e in i_['expected_rows']], [fx(t) for t in got]
+            if exp_rows != got_rows:
+                miss = [x for x in exp_rows if x not in got_rows][:2]
+                extra_ = [x for x in got_rows if x not in exp_rows][:2]
+                row_mismatch = {'source': src['name'], 'in_file': f'{len(got_rows)} transactions read, not among the rows written: {extra_}',
+                                'alone': f'by construction the file holds {len(exp_rows)} well-formed rows; not read: {miss}'}
         per_source[src['name']] = got
         txns.extend(got)
     stats = analyze_transactions(copy.deepcopy(txns)) if txns else None
